@@ -71,6 +71,12 @@ def make_profile(**over) -> dict:
     return p
 
 
+def observe_arr(x):
+    from . import observe
+
+    return observe._arr(x)
+
+
 class SetupActor:
     name = "setup"
 
@@ -223,6 +229,19 @@ class ChannelActor:
         if kind == "add":
             lastp = _programmed_phase(snap, cs, rng)
             op = {"op": "add", "ch": self.name, "pulse": G.gen_pulse(rng, ch, last_phase=lastp)}
+            last = cs.slots[-1] if cs.slots else None
+            if last is not None and last.kind == "pulse" and rng.random() < 0.06:
+                # a detuning echo: same duration, opposite constant detuning, so that
+                # the channel's detuning samples sum to exactly zero
+                from pulser.waveforms import ConstantWaveform
+
+                lp = last.pulse
+                if isinstance(lp.detuning, ConstantWaveform) and isinstance(lp.amplitude, ConstantWaveform):
+                    dv = float(observe_arr(lp.detuning.samples)[0])
+                    av = float(observe_arr(lp.amplitude.samples)[0])
+                    if dv != 0.0:
+                        dd = last.tf - last.ti
+                        op["pulse"] = {"amp": {"w": "const", "d": dd, "v": av}, "det": {"w": "const", "d": dd, "v": -dv}, "phase": op["pulse"]["phase"], "pps": 0.0}
             if proto != "min-delay" or rng.random() < 0.3:
                 op["protocol"] = proto
             return op
@@ -239,6 +258,16 @@ class ChannelActor:
             return op
         if kind == "delay":
             op = {"op": "delay", "d": G.gen_duration(rng, ch), "ch": self.name}
+            if ch.mod_bandwidth and cs.slots and rng.random() < 0.12:
+                # idle for exactly the whole clock periods of the pending fall time
+                # (what is left is shorter than one clock period)
+                from .oracles.c02 import expected_fall_ends
+
+                rest = max(expected_fall_ends(cs)) - cs.end
+                dd = rest - rest % ch.clock_period
+                if dd >= max(ch.min_duration, 1) and (ch.max_duration is None or dd <= ch.max_duration):
+                    op["d"] = dd
+                    return op
             if ch.mod_bandwidth and cs.slots and rng.random() < 0.3:
                 # idle times measured against the channel's rise time: one rise time,
                 # just under two (the longest fall time), and tiny ones, so that
